@@ -49,6 +49,14 @@ PROPS = {
         rule="ASCII trees with consistent leaf maps; non-trivial = contains a ReplaceSource or a multi-child ConcatSource",
         nontrivial=lambda p: bool(prog_kinds(p) & {"concat", "replace"}),
     ),
+    "C03": dict(
+        gens=[tlc("c02"), rand("stream_ascii", 600, "quick"), rand("stream_ascii", 30000, "thorough")],
+        tv_props=["C03"],
+        must_fire=["C03.map_equals_stream_columns", "C03.map_equals_stream_lines", "C03.none_iff_no_mapped_chunk"],
+        rule="as C02; every map() answer is resolved at every byte position and compared with the covering chunk of the "
+             "normal-mode stream of the same object; non-trivial = composite tree with a mapped leaf",
+        nontrivial=lambda p: bool(prog_kinds(p) & {"concat", "replace", "cached"}) and bool(prog_kinds(p) & {"orig", "sms"}),
+    ),
     "C05": dict(
         gens=[tlc("c05"), rand("replace_hist", 500, "quick"), rand("replace_hist", 30000, "thorough")],
         tv_props=["C05"],
@@ -69,6 +77,13 @@ PROPS = {
         must_fire=["C11.announce_before_use", "C11.map_well_formed", "C11.map_strictly_increasing",
                    "C11.map_inside_text", "C11.map_indices_in_tables"],
         rule="as C02; non-trivial = the tree can produce a map (orig/sms leaf)",
+        nontrivial=lambda p: bool(prog_kinds(p) & {"orig", "sms"}),
+    ),
+    "C13": dict(
+        gens=[tlc("c13"), rand("laws", 400, "quick"), rand("laws", 20000, "thorough")],
+        tv_props=["C13"],
+        must_fire=["C13.same_text", "C13.same_attribution_columns", "C13.same_attribution_lines"],
+        rule="pairs (flat tree, regrouped / wrapped tree); non-trivial = at least one mapped leaf",
         nontrivial=lambda p: bool(prog_kinds(p) & {"orig", "sms"}),
     ),
     "C17": dict(
